@@ -57,7 +57,8 @@ type RawReq struct {
 type C12Params struct {
 	Links []LinkCfg `json:"links"`
 	Seq   []RawReq  `json:"seq"`
-	Index int64     `json:"index"` // >=0: the sequence was derived from this mixed-radix index (bounded enumeration)
+	Index int64     `json:"index"` // >=0: the sequence was derived from this mixed-radix index
+	Enum  bool      `json:"enum,omitempty"` // the sequence is the Index-th of the bounded enumeration (by run index)
 }
 
 func bytesBody(b []byte) *goatorepo.Body {
@@ -271,6 +272,9 @@ func execC12(e *Env, pp any) {
 	})
 	reason := e.Settle()
 	e.Note("nontrivial")
+	if p.Enum && len(p.Seq) <= 3 {
+		e.Note(fmt.Sprintf("enum.len%d", len(p.Seq)))
+	}
 	if reason == Crashed || reason == StepLimit {
 		return
 	}
@@ -389,7 +393,44 @@ func seqString(s []RawReq) string {
 	return b.String()
 }
 
+// enumC12: the idx-th sequence in the enumeration of all sequences of length
+// 1, then 2, then 3 over the 50 symbols (shape x id).
+func enumSeq(idx uint64, nsym uint64, maxLen int) ([]uint64, bool) {
+	pow := nsym
+	for l := 1; l <= maxLen; l++ {
+		if idx < pow {
+			out := make([]uint64, l)
+			for i := l - 1; i >= 0; i-- {
+				out[i] = idx % nsym
+				idx /= nsym
+			}
+			return out, true
+		}
+		idx -= pow
+		pow *= nsym
+	}
+	return nil, false
+}
+
+func enumLimit(tier string) int {
+	if tier == "thorough" {
+		return 3
+	}
+	return 2
+}
+
+func genC12At(idx uint64, g *rand.Rand, tier string) any {
+	if syms, ok := enumSeq(idx, uint64(numQShapes*2), enumLimit(tier)); ok {
+		p := &C12Params{Links: []LinkCfg{{Cap: -1, Serialise: idx%2 == 0}, {Cap: -1, Serialise: idx%4 < 2}}, Index: int64(idx), Enum: true}
+		for _, s := range syms {
+			p.Seq = append(p.Seq, RawReq{Shape: int(s) / 2, ID: 1 + int(s)%2})
+		}
+		return p
+	}
+	return genC12(g, tier)
+}
+
 func init() {
-	Register(&Family{Name: "c12.hostile-client", Props: []string{"C12"}, New: func() any { return &C12Params{} }, Gen: genC12, Exec: execC12,
+	Register(&Family{Name: "c12.hostile-client", Props: []string{"C12"}, New: func() any { return &C12Params{} }, Gen: genC12, GenAt: genC12At, Exec: execC12,
 		Faulty: true, FaultKinds: []string{"peer.malformed"}})
 }
